@@ -54,4 +54,18 @@ PROPS["C01"] = {
     "claimed": False,
 }
 
+PROPS["C04"] = {
+    "imports": DATA_IMPORTS,
+    "prelude": "Definition cfg := Cfg{TAG}.cfg.",
+    "level_text": "Theorems for all argument counts, flag sets and co_varnames tuples: the decoded Args are exactly inspect's binding of co_varnames (kinds and order), len is the "
+                  "total, the encoder reproduces counts/names/flags; tied to _args.py by function-level correspondence; docstring/kind/type-None clauses decided by the oracle "
+                  "(inspect.signature, __doc__, inspect.is*function on real function objects) over all signature shapes x scope kinds",
+    "level_note": "Spec/Sig.v is a transcription of inspect._signature_from_function; the oracle calls the real inspect on 3.7-3.10; docstring and kind are header glue modelled in decode_code (correspondence of C01) but their CPython side (funcobject.c __doc__ rule) is only exercised by the oracle",
+    "trusted_base": COMMON_TB + ["Spec/Sig.v transcription of Lib/inspect.py"],
+    "assumptions": ["parameter names in co_varnames are distinct and non-empty (true of compiled code)"],
+    "rule": "all signature shapes with <=2 parameters of each kind x {def, generator, async def, async generator, closure, method, lambda} x docstring shapes, comprehension/class/module scopes, "
+            "and every code object of the corpus; distinct = distinct (code, varnames, flags)",
+    "replay_hint": "exec the described def under the named interpreter; compare CodeData.from_code(f.__code__).type with inspect.signature(f), f.__doc__",
+}
+
 NOT_CLAIMED = {}
